@@ -255,7 +255,7 @@ def hist_chunk(args):
                         flush()
             res['nontrivial'] += sum(1 for h in seen if history_nontrivial(h))
             if res['sample'] is None and histories:
-                res['sample'] = {'phase': 'history', 'cfg': cfg, 'history': max(histories, key=lambda h: (len(set(h)), len(h), h))}
+                res['sample'] = {'phase': 'history', 'cfg': cfg, 'history': max(histories, key=lambda h: ('A' in h, len(set(h)), len(h), h))}
         flush()
     FieldsIO.ALLOW_OVERWRITE = saved
     # keep the result small: at most a few failures per (what, op, class)
